@@ -160,6 +160,8 @@ func (g *Gateway) setSendReceiveBuffers(conn net.Conn) error {
 }
 
 func (g *Gateway) handleWebsocketProtocol(ctx context.Context, c *websocket.Conn, t *Tunnel) {
+	defer verifEvent("handler.end", t, "transport", "ws")
+	verifEvent("handler.begin", t, "transport", "ws")
 	websocketConnections.Inc()
 	defer websocketConnections.Dec()
 
@@ -193,10 +195,13 @@ func (g *Gateway) handleLegacyProtocol(w http.ResponseWriter, r *http.Request, t
 		log.Printf("Opening RDGOUT for client %s", id.GetAttribute(identity.AttrClientIp))
 
 		t.transportOut = out
+		verifPoint("legacy.attach")
 		out.SendAccept(true)
 
 		c.Set(t.RDGId, t, cache.DefaultExpiration)
 	} else if r.Method == MethodRDGIN {
+		defer verifEvent("handler.end", t, "transport", "legacy-in")
+		verifEvent("handler.begin", t, "transport", "legacy-in")
 		legacyConnections.Inc()
 		defer legacyConnections.Dec()
 
@@ -217,6 +222,7 @@ func (g *Gateway) handleLegacyProtocol(w http.ResponseWriter, r *http.Request, t
 
 			// read some initial data
 			in.Drain()
+			verifEvent("legacy.drained", t)
 
 			log.Printf("Legacy handshakeRequest done for client %s", id.GetAttribute(identity.AttrClientIp))
 			handler := NewProcessor(g, t)
